@@ -232,7 +232,7 @@ def extra_obligations(index, tier):
     loops = loop_nodes(fi.node)
     ok = len(loops) > 4 and any(isinstance(n, ast.Call) and ast.unparse(n.func).endswith("Platform")
                                 for s in loops[4].body for n in ast.walk(s))
-    out.append(("footprint/platform-object-allocated-inside-the-entry-loop", ok, "", "codebasin.finder:find"))
+    out.append(("footprint/platform-object-allocated-inside-the-entry-loop", ok, "", "codebasin.finder:find", "pattern"))
     # the block is a function of (p, e, rootdir, state) alone: every other name it reads is a module-level name
     # (imports, classes); a name assigned elsewhere in find() and read by the block is state that outlives the entry
     if len(loops) > 4:
@@ -249,7 +249,7 @@ def extra_obligations(index, tier):
         shape = (outer is not None and ast.unparse(outer.iter).startswith("tqdm(configuration")
                  and ast.unparse(blk.iter).startswith("tqdm(configuration[p]") and blk in list(ast.walk(outer)))
         out.append(("structure/every entry of every platform is visited: for p in configuration: for e in configuration[p]", shape, "",
-                    "codebasin.finder:find"))
+                    "codebasin.finder:find", "pattern"))
         exits = [type(n).__name__ for st in outer.body for n in ast.walk(st) if isinstance(n, (ast.Break, ast.Continue, ast.Return))] if outer else ["?"]
         out.append(("structure/no break, continue or return inside the association loops", not exits, str(exits), "codebasin.finder:find"))
     # every code-base file and every entry's file is parsed before any association
@@ -257,7 +257,7 @@ def extra_obligations(index, tier):
     pre = ("filenames=set(codebase)" in src and "filenames.add(e['file'])" in src and "state.insert_file(f)" in src
            and src.index("state.insert_file(f)") < src.index("platform.Platform("))
     out.append(("structure/all code-base files and entry files are parsed (by their own language) before any association", pre, "",
-                "codebasin.finder:find"))
+                "codebasin.finder:find", "pattern"))
     # no `global` statement and no store to a module/class attribute in the modules on the association path
     for mod in ("codebasin.finder", "codebasin.platform", "codebasin.preprocessor"):
         tree = index.modules[mod]
@@ -276,7 +276,7 @@ def extra_obligations(index, tier):
             empties[st.targets[0].attr] = ast.unparse(st.value)
     for fld in ("_definitions", "_skip_includes", "_include_paths", "found_incl"):
         out.append((f"footprint/Platform.__init__-starts-{fld}-empty", empties.get(fld) in ("{}", "[]"), str(empties.get(fld)),
-                    "codebasin.platform:Platform.__init__"))
+                    "codebasin.platform:Platform.__init__", "pattern"))
     return out
 
 
